@@ -265,5 +265,57 @@ CHECKS["C09"].update(
          "by correspondence; the with/without-index oracle runs on the real code, also with the data file cut short.",
     technique="Lean 4 proof (two-walk loop invariant, metadata independence of the parser) + differential correspondence + with/without-index oracle")
 
+TIED = (" Tied to the source by proof as well: harness/pyast2lean.py translates the current Python text of %s into Lean definitions "
+        "(lean/Tdms/Generated/Code.lean, regenerated on every run) and the *_tied theorems prove them equal to the model functions the theorems above are about; "
+        "a semantic edit of those functions stops the build (83-case self-test: harness/pyast2lean_selftest.py), a cosmetic one does not.")
+CHECKS["C03"].update(category="proof",
+    text="For every reader state satisfying the decidable invariant SegsWf (tag at each segment start, distinct paths per segment, contiguous reader, exact chunks incl. "
+         "truncated final chunks; proved for ANY byte string readMetadata accepts whose segments hold fixed-width contiguous data — invariants_hold_sized — and for the "
+         "encodings of C01): eager_eq_chunk_concat / file_data_chunks_eq_eager (TdmsFile.data_chunks, offsets = running count), channel_chunks_eq_eager / "
+         "channel_data_chunks_eq_eager (channel.data_chunks, iteration), window_eq_eager (read_data(offset, length) = eager[offset : offset+length]), slice_eq_eager "
+         "(channel[a:b:c] = CPython slice of the eager values), index_eq_eager / index_scan_eq_eager (integer indexing through the one-chunk cache). Key lemma on arbitrary "
+         "bytes: chunk_component_agrees (seeking over the other objects reads the same values as the whole-chunk read). Interleaved segments: file-level iterator, "
+         "read_raw_data_for_channel and read_data() proved (…_mixed), windows / slices / index on interleaved segments, DAQmx scalers, memmap and the raw_timestamps "
+         "representation change are covered by correspondence and the pairwise agreement oracle on the real code only.",
+    technique="Lean 4 proof (agreement of the model's access paths, arbitrary-bytes chunk lemma, invariant by induction over the metadata loop) + differential correspondence + agreement oracle")
+CHECKS["C04"].update(
+    text="lazy_window_eq_denote_slice (whole-file): for every well-formed standard contiguous multi-segment encoding e, every typed object, every offset >= 0 and every length "
+         "or None, read_data(offset, length) on openFile (encodeFile e) returns exactly (values of denote e)[offset : offset+length] (fixed-width and string channels); "
+         "lazy_slice_eq_denote_pySlice (all start/stop/step, ValueError iff step 0), lazy_index_eq_denote (after any history), lazy_window_eq_eager_slice; "
+         "c04_hypotheses_of_encoded discharges every assumption of the arithmetic theorem window_eq_slice (any layout: chunk counts incl. 0, truncated final chunks, absent "
+         "segments) for encoded files, and openFile_layout_wf derives them for ANY accepted byte string with distinct paths per segment and no DAQmx. The CPython slice spec "
+         "is cross-checked exhaustively against the interpreter for small sizes. Interleaved and DAQmx windows: arithmetic theorem + correspondence." + TIED % (
+             "TdmsReader.read_raw_data_for_channel, TdmsSegment.read_raw_data_for_channel, _trim_channel_chunk, TdmsChannel._read_slice"),
+    technique="Lean 4 proof (whole-file window theorem composing C04 arithmetic, C01Multi and the per-chunk lemmas; source-to-Lean translation with tied theorems) + exhaustive per-file correspondence + NumPy-slice oracle")
+CHECKS["C06"].update(
+    text="read_cut_single / read_cut_multi (whole-file): for every standard contiguous file (one segment of any shape incl. the length-unknown marker; several "
+         "segments with the same object signature) and EVERY cut offset K, readFile (bytes.take K) succeeds, every channel's values are a prefix of the uncut values "
+         "(= denote), contain every value of the segments wholly before the cut (read_cut_multi_boundary), numValues = values returned, the incomplete flag is set iff the cut "
+         "falls inside raw data or the marker is present (read_cut_multi_status), monotone in K (…_mono); closed forms for the kept values (cutQ/cutR, finalCount). Arithmetic "
+         "core for arbitrary object lists: chunk count and override, interleaved = complete rows, contiguous = prefix-maximal fit, DAQmx monotonicity with counterexamples for "
+         "the side conditions. Lazy = eager on cut files, changing object lists, interleaved and DAQmx cuts: every prefix of generated files through the model and the real "
+         "reader with the prefix oracle." + TIED % "TdmsSegment._calculate_chunks, _compute_final_chunk_lengths, _get_chunk_size",
+    technique="Lean 4 proof (whole-file cut theorem at every byte offset; div/mod arithmetic; source-to-Lean translation with tied theorems) + exhaustive cut enumeration per file + prefix oracle")
+CHECKS["C07"].update(
+    text="write_then_read (whole composition): for every program of sessions / segments / objects the writer model accepts (WritableProgram) whose channels keep one data "
+         "type (typesConsistent — forced by the proof; the real writer accepted such sequences and wrote unreadable files: defect D19, repaired in-session, cross-session case "
+         "a known finding), version 4712/4713, readFile of the written bytes succeeds and its content equals promisedView prog: objects in first-appearance order, last "
+         "written property values with the promised TDMS types, each channel the concatenation of everything written to it. Bridge: the writer's bytes ARE a spec encoding "
+         "(encodeFile_encOfProgram) whose meaning is the promise (denote_encOfProgram). Value level: Int32/Int64/Uint64 by magnitude with exact boundaries, bool/float/"
+         "string/typed/timestamp encodings (through C12), exact characterisation of _infer_dtype. The writer model equals the real TdmsWriter byte for byte on generated "
+         "programs; the real write -> real read oracle runs on every program.",
+    technique="Lean 4 proof (writer output = spec encoding, composed with the C01 whole-file theorem; value-level codecs) + byte-equality correspondence + read-back oracle")
+CHECKS["C05"].update(
+    text=CHECKS["C05"]["text"].replace("IndexWF is not derived from readMetadata's output.",
+         "indexWF_of_openFile / index_history_independent_of_openFile derive IndexWF for ANY accepted byte string with distinct paths per segment; index_history_independent_encoded "
+         "needs no hypothesis on the open file; chunk_local_daqmx covers DAQmx segments with uniform buffers (daq_uniform_is_needed: kernel-checked counterexample in the model "
+         "for non-uniform shared buffers)."))
+CHECKS["C19"].update(
+    text=CHECKS["C19"]["text"].replace("segment well-formedness is assumed.", "window_plan_in_segment proves the planned chunks lie inside the segment, segWF_of_openFile / "
+         "window_io_bound_of_openFile / window_io_bound_encoded discharge the well-formedness assumptions.") + TIED % "TdmsChannel._read_at_index, TdmsReader.read_channel_chunk_for_index")
+for _k, _fns in (("C02", "_reuse_previous_object / _update_existing_object / _number_of_segment_values"), ("C11", "get_buffer_dimensions, get_daqmx_chunk_size, get_daqmx_final_chunk_lengths"),
+                 ("C12", "TimeStamp.__init__ (integer part), as_datetime64, _multiply_high"), ("C16", "_components_to_path and _path_components")):
+    CHECKS[_k].update(text=CHECKS[_k]["text"] + TIED % _fns)
+
 NOTES = ("Properties move from not_applicable to checks as their model, correspondence and theorems are built; a check is claimed at `proof` only when its "
          "headline theorems are registered in lean/obligations.json. See DESIGN.md.")
